@@ -21,7 +21,7 @@ META = {
             "mload copies with the overlap guard) preserve memory; each assembly peephole pass preserves halting behaviour on "
             "a labelled-program semantics; the unique_symbol bookkeeping (the optimiser never loses, duplicates or invents "
             "a marker a binop rewrite must keep); the compile_ir lowering pushes the value of pure expressions and keeps "
-            "its stack-height bookkeeping exact on every path through if / repeat / break / continue; the return-sequence rewrite is the calling convention it is assumed to be in the frames the front end builds; optimize never raises the symbol panics on front-end-shaped trees. Models are tied to the source by exact output equality (complete boundary grid, "
+            "its stack-height bookkeeping exact on every path through if / repeat / break / continue; the return-sequence rewrite is the calling convention it is assumed to be in the frames the front end builds; optimize never raises the symbol panics on front-end-shaped trees; for the non-loop statement fragment the emitted assembly realises the IR meaning on a pc machine with a store, and this composes with optimiser soundness (opt_then_lower_sound). Models are tied to the source by exact output equality (complete boundary grid, "
             "seeded random trees, generated and compiler-emitted assemblies) and by executing the same IR / assembly / "
             "contracts with and without the optimisers on an EVM.",
     "level_note": "Trusted: Coq kernel + vm_compute, py2coq translator, Word256.v (tied to pyrevm by C14's wordtie), hand models "
@@ -849,7 +849,7 @@ STATIC_FILES = ["C15/Syntax.v", "C15/WordFacts.v", "C15/Bytes.v", "C15/Peephole.
 GEN_FILES = ["C15/GenUtils.v", "C15/Optimizer.v", "C15/OptTree.v", "C15/FoldSound.v", "C15/PropsFold.v", "C15/OptSound.v",
              "C15/OptTreeSound.v", "C15/MergeSound.v", "C15/MemInst.v", "C15/SymSound.v", "C15/SymHered.v", "C15/PropsOpt.v",
              "C15/Lower.v", "C15/LowerSound.v", "C15/LowerFlow.v", "C15/FlowSound.v", "C15/RetRewrite.v",
-             "C15/RetRewriteSound.v", "C15/PropsLower.v"]
+             "C15/RetRewriteSound.v", "C15/StmtSound.v", "C15/PropsLower.v"]
 
 
 def _build(ctx):
